@@ -106,7 +106,7 @@ pub enum Token {
     BlockComment,
 
     /// An identifier.
-    #[regex(r"(?&id)")]
+    #[regex(r"(?&id)", helpers::name)]
     Ident,
 
     /// A string literal.
@@ -114,11 +114,11 @@ pub enum Token {
     String,
 
     /// A package name.
-    #[regex(r"(?&package_name)(@(?&semver))?")]
+    #[regex(r"(?&package_name)(@(?&semver))?", helpers::name)]
     PackageName,
 
     /// A package path with optional semantic version.
-    #[regex(r"(?&package_name)(/(?&id))+(@(?&semver))?")]
+    #[regex(r"(?&package_name)(/(?&id))+(@(?&semver))?", helpers::name)]
     PackagePath,
 
     /// The `import` keyword.
@@ -380,6 +380,19 @@ mod helpers {
         /// A block comment.
         #[token(r"/*", block_comment)]
         BlockComment(&'a str),
+    }
+
+    /// Rejects a name that ends with `-`.
+    ///
+    /// The regular expression of an identifier does not allow a trailing `-`, but the
+    /// generated lexer does not backtrack out of a partially matched `-word` repetition.
+    pub fn name(lex: &mut logos::Lexer<Token>) -> Result<(), Error> {
+        let name = lex.slice();
+        let name = name.split('@').next().unwrap_or(name);
+        if name.ends_with('-') {
+            return Err(Error::UnexpectedToken);
+        }
+        Ok(())
     }
 
     pub fn string(lex: &mut logos::Lexer<Token>) -> Result<(), Error> {
